@@ -29,6 +29,10 @@ def x_obligations(tier):
     for pre, n in [("", 3), ("h/a/", 2)]:
         o.append(Obl(f"C14-frozen-cached[{pre!r}+{n}]", M, "frozen", env={"VF_OP": "3", "VF_PRE": pre, "VF_N": str(n), "VF_CACHES": "1"}, timeout=T, expect="find", family="C14-shared",
                      bound="same with spil's caches ON (cache keys are realised: bug-hunt only, exhaustion not expected)"))
+    # a Sid that still carries a REFUSED query (it shares the base Sid's resolved fields when the caches are on) is not equal to the base Sid
+    for pre, suf2 in [("h/a/", "?zz=1"), ("h/s/q1/v", "?q=zz")]:
+        o.append(Obl(f"C14-eq-uri[refused query,{pre!r}+1 vs +1+{suf2!r}]", M, "eq_uri", env={"VF_TI": "0", "VF_TJ": "0", "VF_PRE": pre, "VF_N": "1", "VF_SUF2": suf2, "VF_CACHES": "1"}, timeout=60 if tier == "quick" else T,
+                     expect="find", family="C14-eq", bound="Sid(pre+a) against Sid(pre+b+refused query), a, b one character; spil's caches ON (keys are realised: bug-hunt)"))
     o.append(Obl("C14-reach", M, "reach", env={"VF_PRE": "h/a/", "VF_N": "2"}, timeout=150, expect="refute", family="C14-twin"))
     return o
 
